@@ -110,8 +110,10 @@ CLAIMED = {
              "term's entries), AddDocTx (writes exactly-recorded entry keys, invalidates counts, records the entry list, touches "
              "only index keys), termGetCount (cached or exact recount = number of stored keys under the term prefix), RemoveDoc "
              "(deletes the recorded entries and the document key in one transaction, counts before deleting). One known finding "
-             "(replacement leaves old entries). Not decided here: the sign-aware numeric scans (min/max/range/FieldNumbers), the "
-             "streaming query methods' output histories and the cross-operation history invariant that composes these contracts.",
+             "(replacement leaves old entries). The producer of GetTermMatch is proved, for string terms, to send exactly the document parts of "
+             "the entries stored under the term's prefix (one per entry, in key order, none twice, capped by the maximum) and to write nothing. "
+             "Not decided here: the sign-aware numeric scans (min/max/range/FieldNumbers), the other streaming query methods' output "
+             "histories and the cross-operation history invariant that composes these contracts.",
         ref="§5 C09",
         note=TRUST + " Assumed: kvi interface contract (spec/kv.gvc), bytes.Join/Split/SplitN/HasPrefix and slicing axioms (spec/keys.smt2, "
              "spec/idxkeys.smt2), finite-set counting axioms (spec/idxcount.smt2), Float64bits/BigEndian/Uvarint models (spec/ieee.smt2), "
